@@ -160,9 +160,15 @@ class ByteArray(SimpleModel):
 
     @classmethod
     def from_hex(cls, value):
-        if isinstance(value, six.text_type):
-            value = value.encode('ascii')
-        return (unhexlify(_bytes_join(value)),)
+        try:
+            if isinstance(value, six.text_type):
+                value = value.encode('ascii')
+            return (unhexlify(_bytes_join(value)),)
+
+        except (TypeError, ValueError):
+            # binascii.Error and UnicodeEncodeError are ValueErrors; there is
+            # nothing to join when the value is not text at all.
+            raise ValidationError(value)
 
 
 def _default_binary_encoding(b):
